@@ -263,3 +263,61 @@ M("C19", "override-helper-tests-truthiness", F, "", "", "C19.R8",
   edits=[(F, "    def get_sleep_time(self) -> float:\n",
           "    @staticmethod\n    def _given_or(override, default):\n        return override if override else default\n\n    def get_sleep_time(self) -> float:\n"),
          (F, SET_SLEEP, "        self.sleeptime: int = self._given_or(sleeptime, self.bconfig.settings[\"SETTING_SLEEPTIME\"])\n")])
+
+# ---------------------------------------------------------------------------------------------- R9: the registration decorators hand back the function and register it once under their key
+H_DEC = ("        def decorator(func):\n            logger.debug(\"register_task %s -> %s\", command, func)\n            value = command\n"
+         "            if command and not isinstance(command, int):\n                value = command.value\n            self.register_task(value, func)\n            return func\n\n        return decorator\n")
+C_DEC = "        def decorator(func):\n            self.register_task(-1, func)\n            return func\n\n        return decorator\n"
+H_KEY = "            value = command\n            if command and not isinstance(command, int):\n                value = command.value\n            self.register_task(value, func)\n"
+# the key computed in the factory, the decorator a lambda that registers and yields its argument
+T("C19", "twin-decorator-lambda-key-in-factory", F, H_DEC,
+  "        value = command\n        if command and not isinstance(command, int):\n            value = command.value\n"
+  "        return lambda func: (self.register_task(value, func), func)[1]\n")
+T("C19", "twin-decorator-lambda-or", F, C_DEC, "        return lambda func: self.register_task(-1, func) or func\n")
+# catch_all() delegates to the general front end
+T("C19", "twin-catch-all-delegates-to-handle", F, C_DEC, "        return self.handle(-1)\n")
+# register_task hands the handler back, the decorators are partial applications of it
+T("C19", "twin-register-returns-handler-partial-decorators", F, "", "",
+  edits=[(F, REG, REG + "        return func\n"),
+         (F, H_DEC, "        value = command\n        if command and not isinstance(command, int):\n            value = command.value\n        return functools.partial(self.register_task, value)\n"),
+         (F, C_DEC, "        return functools.partial(self.register_task, -1)\n"),
+         (F, "import hashlib\n", "import functools\nimport hashlib\n")])
+T("C19", "twin-register-returns-handler-tail-call", F, "", "",
+  edits=[(F, REG, REG + "        return func\n"), (F, "            self.register_task(-1, func)\n            return func\n", "            return self.register_task(-1, func)\n")])
+# a registering helper method bound with partial
+T("C19", "twin-decorator-partial-of-helper-method", F, "", "",
+  edits=[(F, "    def handle(self, command: Union[None, int, BeaconCommand]):\n",
+          "    def _register_and_return(self, key, func):\n        self.register_task(key, func)\n        return func\n\n    def handle(self, command: Union[None, int, BeaconCommand]):\n"),
+         (F, C_DEC, "        return functools.partial(self._register_and_return, -1)\n"),
+         (F, "import hashlib\n", "import functools\nimport hashlib\n")])
+# key as a conditional expression, keyword arguments, validation that raises
+T("C19", "twin-decorator-key-ifexp-keywords", F, H_KEY,
+  "            is_member = bool(command) and not isinstance(command, int)\n            self.register_task(func=func, command_id=command.value if is_member else command)\n")
+T("C19", "twin-decorator-validates-callable", F, "            self.register_task(-1, func)\n            return func\n",
+  "            if not callable(func):\n                raise TypeError(\"handler must be callable\")\n            self.register_task(-1, func)\n            return func\n")
+T("C19", "twin-decorator-named-result", F, "            self.register_task(-1, func)\n            return func\n", "            handler = func\n            self.register_task(-1, handler)\n            return handler\n")
+# the decorated name is replaced by something that is not the function
+M("C19", "decorator-returns-registration-result", F, "            self.register_task(value, func)\n            return func\n", "            return self.register_task(value, func)\n", "C19.R9")
+M("C19", "catch-all-decorator-returns-nothing", F, "            self.register_task(-1, func)\n            return func\n", "            self.register_task(-1, func)\n", "C19.R9")
+M("C19", "decorator-lambda-yields-none", F, C_DEC, "        return lambda func: self.register_task(-1, func)\n", "C19.R9")
+M("C19", "decorator-partial-of-helper-without-result", F, "", "", "C19.R9",
+  edits=[(F, "    def handle(self, command: Union[None, int, BeaconCommand]):\n",
+          "    def _register_logged(self, key, func):\n        logger.debug(\"register_task %s -> %s\", key, func)\n        self.register_task(key, func)\n\n    def handle(self, command: Union[None, int, BeaconCommand]):\n"),
+         (F, C_DEC, "        return functools.partial(self._register_logged, -1)\n"),
+         (F, "import hashlib\n", "import functools\nimport hashlib\n")])
+M("C19", "decorator-returns-only-first-registration", F, "            self.register_task(value, func)\n            return func\n",
+  "            first = value not in self.task_map\n            self.register_task(value, func)\n            return func if first else None\n", "C19.R9")
+# the registration itself
+M("C19", "decorator-registers-only-truthy-command", F, "            self.register_task(value, func)\n", "            if value:\n                self.register_task(value, func)\n", "C19.R9")
+M("C19", "decorator-registers-twice", F, "            self.register_task(-1, func)\n            return func\n", "            self.register_task(-1, func)\n            self.register_task(-1, func)\n            return func\n", "C19.R9")
+M("C19", "decorator-registers-the-decorator", F, "            self.register_task(-1, func)\n            return func\n", "            self.register_task(-1, decorator)\n            return func\n", "C19.R9")
+M("C19", "decorator-arguments-swapped", F, "            self.register_task(-1, func)\n", "            self.register_task(func, -1)\n", "C19.R9")
+# the key
+M("C19", "handle-key-ignores-command", F, H_KEY, "            self.register_task(None, func)\n", "C19.R9")
+M("C19", "catch-all-key-zero", F, "            self.register_task(-1, func)\n", "            self.register_task(0, func)\n", "C19.R9")
+M("C19", "catch-all-delegates-with-none", F, C_DEC, "        return self.handle(None)\n", "C19.R9")
+# a shape the rule does not follow must end undecided: a wrapper of the function is registered and handed back
+T("C19", "twin-decorator-registers-wrapper", F, "", "",
+  edits=[(F, "            self.register_task(-1, func)\n            return func\n",
+          "            @functools.wraps(func)\n            def wrapper(task):\n                return func(task)\n\n            self.register_task(-1, wrapper)\n            return wrapper\n"),
+         (F, "import hashlib\n", "import functools\nimport hashlib\n")])
